@@ -31,15 +31,16 @@ type failure struct{ key, desc string }
 
 // result is what one execution reports back.
 type result struct {
-	fail       *failure
-	harness    string
-	outcome    string
-	reconnects uint64 // Metrics().Reconnects() at the end of a recovered execution
-	sample     map[string]any
-	inLen      int // record: stream lengths and frame ends
-	outLen     int
-	inEnds     []int
-	outEnds    []int
+	ruleMismatch string
+	fail         *failure
+	harness      string
+	outcome      string
+	reconnects   uint64 // Metrics().Reconnects() at the end of a recovered execution
+	sample       map[string]any
+	inLen        int // record: stream lengths and frame ends
+	outLen       int
+	inEnds       []int
+	outEnds      []int
 }
 
 var onLeak func(string)
@@ -396,7 +397,10 @@ func (x *exec) awaitBack(tD time.Duration, base, refusals int, priorReconnects u
 	}
 	for i := range gaps {
 		if gaps[i] != want[i] {
-			return x.failf("backoff:sequence", "delay before %s attempt %d is %v, the documented backoff gives %v; gaps=%s reference=%s", what, i, gaps[i], want[i], fmtDur(gaps), fmtDur(want)), gaps
+			// not demanded by the property (start at initial, never decrease, never above T5 are
+			// checked above): agreement with the documented growth rule is only recorded
+			x.ruleMismatch = fmt.Sprintf("delay before %s attempt %d is %v, the documented backoff gives %v; gaps=%s reference=%s", what, i, gaps[i], want[i], fmtDur(gaps), fmtDur(want))
+			break
 		}
 	}
 	if !ok {
@@ -537,6 +541,7 @@ func run(t *testing.T, cs caseSpec) (res result, leak string) {
 		default:
 			res = x.runFault()
 		}
+		res.ruleMismatch = x.ruleMismatch
 	})
 	return res, leak
 }
@@ -737,8 +742,9 @@ func (x *exec) runCloseInLoop() (res result) {
 	w.Advance(tD + d - w.Now())
 	log := x.attemptLog()
 	if len(log) != 1+failed {
-		res.fail = x.failf("backoff:sequence", "%d attempts were made %v after the drop, the documented backoff gives %d", len(log)-1, d, failed)
-		return res
+		// a different (property-conforming) backoff curve only moves the instant of the Close
+		// within the loop; what follows — silence after Close — is demanded all the same
+		x.ruleMismatch = fmt.Sprintf("%d attempts were made %v after the drop, the documented backoff gives %d", len(log)-1, d, failed)
 	}
 	if acceptAfter {
 		x.setRefusals(0)
